@@ -209,6 +209,16 @@ static cbor_item_t* build(int depth) {
       return s;
     }
     default: { /* tag */
+      if (!vh_randn(8)) { /* the shape of a bignum / decimal fraction / date: a registered tag around the content it is registered for */
+        static const unsigned char z[] = {0x00, 0x00, 0x01, 0x02, 0x00};
+        static const uint64_t tg[] = {2, 3, 2, 3, 24, 0, 1};
+        int k = (int)vh_randn(7);
+        cbor_item_t* c = k < 5 ? cbor_build_bytestring(z, 1 + vh_randn(5)) : k == 5 ? cbor_build_string("2026-10-03T00:00:00Z") : cbor_build_uint32(1790000000u);
+        if (!c) return NULL;
+        cbor_item_t* t = cbor_build_tag(tg[k], c);
+        cbor_decref(&c);
+        return t;
+      }
       cbor_item_t* c = member(depth - 1);
       if (!c) return NULL;
       cbor_item_t* t;
